@@ -400,6 +400,12 @@ pub fn run(ctx: &mut Ctx) {
                 for &ri in &combo { set.push(RouteSpec { segs: routes[ri].clone(), methods: msets[code % msets.len()].clone() }); code /= msets.len(); }
                 if size == 3 && !(set.iter().all(|r| r.methods == set[0].methods) || set.iter().map(|r| r.methods.len()).sum::<usize>() == 4) { continue }
                 if quick && size == 2 && set.iter().map(|r| r.segs.len()).sum::<usize>() >= 4 && set[0].methods != set[1].methods && set[0].methods.len() + set[1].methods.len() != 3 { continue }
+                // thorough, pairs with a depth-3 route: the same thinning of method-set assignments; two depth-3 routes only when
+                // their first segments can meet (equal, or one of them a param) - otherwise they live in disjoint subtrees
+                if !quick && size == 2 && set.iter().any(|r| r.segs.len() == 3) {
+                    if set[0].methods != set[1].methods && set[0].methods.len() + set[1].methods.len() != 3 { continue }
+                    if set.iter().all(|r| r.segs.len() == 3) && !(set[0].segs[0] == set[1].segs[0] || is_param(&set[0].segs[0]) || is_param(&set[1].segs[0])) { continue }
+                }
                 let key: Vec<_> = set.iter().map(|r| (r.segs.clone(), r.methods.clone())).collect();
                 if !done_sets.insert(key) { continue }
                 if !ctx.mine() { continue }
@@ -419,7 +425,7 @@ pub fn run(ctx: &mut Ctx) {
         }
     }
     ctx.extra.insert("rule".into(), json!("case = (route set + method sets, declaration shape, registration order, request); configurations are built by the real registration/finalization code, requests go through the real Request::read / Router::handle / Response::send; non-trivial = the route set has a param route or more than one route; collision = a request segment is a strict byte extension or a strict prefix of a static pattern at the same position (the byte-prefix shortcut of the radix matcher)"));
-    ctx.extra.insert("bounds".into(), json!({"segments": SEGS, "plans(depth,set size)": if quick { json!([[2,1],[2,2]]) } else { json!([[3,1],[3,2],[2,3]]) }, "method_sets": ["GET","POST","GET+POST", "all 31 subsets on single-route apps"], "shapes": ["flat","split","mount1","mount2","nested","inline","mount-one(i)"], "orders": if quick { "all permutations up to 3 items, 3 orders beyond" } else { "all permutations up to 4 items" },
+    ctx.extra.insert("bounds".into(), json!({"segments": SEGS, "plans(depth,set size)": if quick { json!([[2,1],[2,2]]) } else { json!([[3,1],[3,2],[2,3]]) }, "method_sets": ["GET","POST","GET+POST", "all 31 subsets on single-route apps"], "thinning": "pairs of deep routes: method-set assignments equal or {one method, both methods}; two depth-3 routes only when their first segments can meet", "shapes": ["flat","split","mount1","mount2","nested","inline","mount-one(i)"], "orders": if quick { "all permutations up to 3 items, 3 orders beyond" } else { "all permutations up to 4 items" },
         "requests": "route sets of depth <=2: all paths of depth <= max+1 over the per-set segment alphabet x trailing-slash variants x 7 methods; sets containing a depth-3 route: every route instance, all its single-segment mutations, one segment dropped / appended x 5 methods"}));
     ctx.traces_validated = ctx.transitions;
 }
